@@ -19,3 +19,6 @@ func seedBytes(prevSig []byte) []byte {
 	arr := []byte{h[0], h[3], h[7], h[11], h[15], h[19], h[23], h[27]}
 	return []byte(strconv.FormatUint(binary.LittleEndian.Uint64(arr), 10))
 }
+
+// SeedBytesOf exposes the reference seed derivation to other packages.
+func SeedBytesOf(prevSig []byte) []byte { return seedBytes(prevSig) }
